@@ -24,6 +24,8 @@ func runC11(c *Ctx) {
 	c11Rand(c)
 	c11Max(c)
 	c11WeightArith(c)
+	// the per-listener answer limit reaches the sampler only if every listener's chain ends at its own max-answer handler
+	c.importRules(runC20, "C20", map[string]string{"samemux": "samemux"})
 }
 
 func c11Bounded(c *Ctx) {
